@@ -10,7 +10,7 @@ open BlocV
 /-- `chr` accepts an integer code exactly when it lies in 0..255, and then yields that single byte;
 every other code is rejected with OUT_OF_RANGE. -/
 theorem chr_byte_range (c : Int64) :
-    biChr [fun _ => .ok (.int c)] =
+    biChr (m := Res) [.ok (.int c)] =
       if 0 ≤ c.toInt ∧ c.toInt ≤ 255 then .ok (.str [c.toUInt64.toUInt8]) else .err Gen.EXC_RT_OUT_OF_RANGE := by
   have h0 : (c < 0) ↔ c.toInt < 0 := Int64.lt_iff_toInt_lt
   have h1 : (c > 255) ↔ c.toInt > 255 := by
@@ -25,10 +25,12 @@ theorem chr_byte_range (c : Int64) :
       rw [h0, h1]; omega
     rcases this with a | b
     · simp [biChr, Val.type, Val.isNull, Val.asInt, Ty.int, hc, a, bind]
+      rfl
     · simp [biChr, Val.type, Val.isNull, Val.asInt, Ty.int, hc, b, bind]
+      rfl
 
-example : biChr [fun _ => .ok (.int 65)] = .ok (.str [65]) := by rfl
-example : biChr [fun _ => .ok (.int 256)] = .err Gen.EXC_RT_OUT_OF_RANGE := by rfl
-example : biChr [fun _ => .ok (.null Ty.int)] = .ok (.null Ty.str) := by rfl
+example : biChr (m := Res) [.ok (.int 65)] = .ok (.str [65]) := by rfl
+example : biChr (m := Res) [.ok (.int 256)] = .err Gen.EXC_RT_OUT_OF_RANGE := by rfl
+example : biChr (m := Res) [.ok (.null Ty.int)] = .ok (.null Ty.str) := by rfl
 
 end BlocV.C10
